@@ -22,6 +22,9 @@ def run(ctx) -> None:
     jsonrules.rule_J1(ctx)
     jsonrules.rule_J2(ctx)
     jsonrules.rule_J6(ctx)
+    ctx.rules_run += ["J7", "J8"]
+    jsonrules.rule_J7(ctx)      # the rebuilt message encodes to the same bytes only if containers keep their order
+    jsonrules.rule_J8(ctx)
     from .c15 import rule_Q7
     ctx.rules_run.append("Q7")
     rule_Q7(ctx)                # RFC 3339 text: four-digit year over the whole valid range
